@@ -114,7 +114,7 @@ def run(tier, seed):
                            depth, len(walks), nvals, "all 65536" if tier == "thorough" else "15 boundaries + 1500 seeded samples"),
                "events_validated": len(lines), "binding_selftest_rejected": tested, "checker_cmd": mc.cmd}
         return v.finish("model_checking", cov, [
-            "for a button-less pointer event with down=TRUE both MOVE and MOVE|DOWN are accepted (the property does not fix it)",
+            "a button-less pointer event carries MOVE, plus DOWN exactly when it was submitted as pressed (the press state must be encoded)",
             "eventTime is not constrained", "server traffic in these runs is well formed"])
     finally:
         core.cleanup(wd)
